@@ -536,20 +536,24 @@ def run(ctx):
     probe_fail = [(i, r) for i, v in prels.items() for r in v if r[0] == "T" and not r[4]]
     # optimisation rows of ineq(): cl1's own rounding on the crafted (ill-conditioned) states allows a few loose rows;
     # per probe case at least 80 % of them must reproduce tightly (a changed row rule moves all of them)
-    nrows = {"hard": 0, "opt": 0, "opt_tight": 0, "ineq_calls": 0}
+    nrows = {"ineq_calls": 0}
     for i, v in prels.items():
-        tot = sum(r[6] for r in v if r[2] == "ineq-opt-rows")
-        tight = sum(r[5] for r in v if r[2] == "ineq-opt-rows")
-        nrows["opt"] += int(tot)
-        nrows["opt_tight"] += int(tight)
-        nrows["hard"] += sum(int(r[3]) for r in v if r[2] == "ineq-rows")
+        for r in v:
+            if r[2].startswith("ineq-class-"):
+                c = r[2][11:]
+                nrows[c] = nrows.get(c, 0) + int(r[6])
+                nrows[c + "_tight"] = nrows.get(c + "_tight", 0) + int(r[5])
         nrows["ineq_calls"] += sum(1 for r in v if r[2] == "ineq-backeq")
         nrows["sign_restricted"] = nrows.get("sign_restricted", 0) + int(sum(r[6] for r in v if r[2] == "ineq-sign-use"))
         nrows["sign_restricted_moved"] = nrows.get("sign_restricted_moved", 0) + int(sum(r[5] for r in v if r[2] == "ineq-sign-use"))
         nrows["cl1_kode0_infeasible_answers"] = nrows.get("cl1_kode0_infeasible_answers", 0) + sum(1 for r in v if r[2] == "ineq-cl1-feasible" and r[5] == 0.0)
         nrows["cl1_kode0_sign_violations"] = nrows.get("cl1_kode0_sign_violations", 0) + sum(1 for r in v if r[2] == "ineq-cl1-signs" and r[5] == 0.0)
-        if tot >= 5 and tight < 0.8 * tot:
-            probe_fail.append((i, ("T", "-", "ineq-opt-rows", "0", False, tight, tot)))
+    # rows of ineq(): per class (optimisation, equality, "do not remove more than present", "dissolve_only", solid solution) at
+    # least 90 % of the rows over the run must reproduce cl1's residual tightly (a changed row rule moves the whole class;
+    # cl1's own rounding moves ~1 row in 10^4)
+    for c in ("opt", "eq", "remove", "dissolve", "ss"):
+        if nrows.get(c, 0) >= 30 and nrows[c + "_tight"] < 0.9 * nrows[c] and pids:
+            probe_fail.append((pids[0], ("T", "-", "ineq-class-" + c, "0", False, float(nrows[c + "_tight"]), float(nrows[c]))))
     ctx.cov["ineq_rows_checked"] = nrows
     # absent supersaturated phases carry the sign restriction "may only precipitate": in 55–75 % of the crafted states cl1
     # makes them precipitate (x < 0); a restriction with the wrong sign would leave all of them at 0
@@ -801,8 +805,8 @@ MANIFEST = dict(
          "EQUI SI S_S SYS / DUMP. Correspondence: f, IAP, residual of every PP/SS/EXCH/SURFACE row, fractions, log10 lambda, a0/a1; the gate "
          "model accepts every state the code accepted; probes: the real residuals / check_residuals / ineq / reset answer as the model does "
          "on crafted (f, moles, delta) around every threshold; ineq(1) is called on the crafted states and cl1's answer ties the row model: "
-         "back_eq = the model's row sources in order, residual of every one-entry inequality row = rhs − c·x_i (1e-12), ≥ 80 % of the dense "
-         "rows per case reproduce to 1e-5 relative, restricted variables take the allowed sign.",
+         "back_eq = the model's row sources in order (exact); per row class (optimise, equality, remove, dissolve_only, solid solution) ≥ 90 % of the "
+         "rows over the run reproduce cl1's residual rhs − row·x to 1e-6 relative; restricted variables take the allowed sign.",
     note="Trusted: Lean kernel; harness/ph_assemblage.cpp (friend access, BASIC CALLBACK at punch time, crafted calls with state restored); "
          "tools/props/c03.py; libm. Partial: the inequality solver (ineq's matrix set-up, cl1) is an oracle of the model — its answers are "
          "constrained only through reset() and the gate; gases in EQUILIBRIUM_PHASES are not generated (the property speaks of minerals); "
